@@ -41,6 +41,38 @@ CHECKS = {
          "Exploration: every enumerated and random tree of the parser's image is printed with Display and parsed back; the result must equal the tree (literals exactly); a sample is also evaluated before/after on random inputs. Non-finite float literals are a known finding, isolated by re-checking with the literal replaced.",
          "Trusts the image generator to stay inside the parser's image (cross-checked by C07's print/parse round trip).",
          "DESIGN.md §4 C16"),
+ "C09": ("model-based property testing of ruleset evaluation: exhaustive small rulesets over 11 rule kinds (every subset/position of failing rules) + seeded random rulesets and serde inputs; oracle = reference evaluator per rule and serialize/evaluate equivalence",
+         "Exploration: outcome count, order, carried rule and value (vs the reference evaluator on the rule alone) for every ruleset of 0-4 rules over 11 kinds and for random rulesets; evaluate(&T) vs evaluate_value(&serialize(T)) for generated serde values including failing Serialize impls.",
+         "Trusts the reference evaluator and the serde data-model generator/model (harness/src/sval.rs).",
+         "DESIGN.md §4 C09"),
+ "C11": ("stateful model-based property testing over call histories: generated rulesets of probe calls with similar-but-distinct arguments, failure sets and fail-first plans, 1-3 consecutive evaluations; oracle = per-evaluation cache model (invocation counts per key, observed values, failure outcomes)",
+         "Exploration: an exhaustive family over all ordered pairs of 17 equal/similar arguments x function identity x cacheability x failure x rule split, and seeded random call histories; invocation multisets and outcomes are compared with the cache model.",
+         "Invocations are observed through the harness's own probes; NaN and equal-valued decimals of different scale are excluded as arguments by construction.",
+         "DESIGN.md §4 C11"),
+ "C12": ("schedule-owning property testing: suspending probes + hand-rolled executor; exhaustive enumeration of poll orders and drop points for a small core, seeded random schedules beyond; metamorphic oracle: any schedule == run-alone baseline",
+         "Exploration: 4 small rulesets x 2 evaluations x all 1024 poll orders of 10 choices x 13 drop points (exhaustive) and seeded random schedules of 1-4 interleaved evaluations with optional abandonment; outcomes, attributed invocations, input immutability, rule identity and post-history evaluation are compared with the sequential baseline.",
+         "Suspension points exist only inside user functions (owned by the harness); failure plans are stateless so a history-independent baseline exists.",
+         "DESIGN.md §4 C12"),
+ "C13": ("property-based differential testing of the serializer: generated values of all 29 serde data-model kinds through a hand-written Serialize (incl. failing ones); oracles = prescribed faithful image, serde_json::to_value, panic-catching totality",
+         "Exploration: an exhaustive list of every kind at every limit (alone and inside every wrapper kind) and seeded random nested values; the image must equal the prescribed one (or be an error where prescribed), equal serde_json's image on JSON-representable data, and never panic; the same through RuleSet::evaluate(&T).",
+         "Trusts serde_json as reference image and the model in harness/src/sval.rs.",
+         "DESIGN.md §4 C13"),
+ "C15": ("stateful model-based property testing of the builder: generated histories of builder calls against a model (ordered rule names, function set, symbol map), name sweep with an independent Unicode identifier oracle (unicode-ident), probe rules on the built ruleset",
+         "Exploration: every call's Ok/Err (and the name inside the error) is predicted by the model; the built ruleset is probed for exactly the accepted rules in order, each accepted function under its own name, unknown-function errors for refused names and most-recent symbol values.",
+         "Identifier well-formedness = ('_' | XID_Start) XID_Continue* by unicode-ident; characters on which unicode-ident and unicode-xid disagree are excluded and counted.",
+         "DESIGN.md §4 C15"),
+ "C17": ("property-based testing with exhaustive cores: all 8/16-bit values, +-2^13..2^17 windows around every integer limit into every integer type, every Value variant x every extraction, collections with a bad element at each position; oracle = i128 range arithmetic and round-trip equality",
+         "Exploration (exhaustive for the stated finite cores): conversions into Value and back return the original; narrowing succeeds exactly when in range and otherwise gives the overflow error; wrong kinds give a type error carrying an equal value; collections convert iff every element does.",
+         "Oracle is plain integer range arithmetic written in the check.",
+         "DESIGN.md §4 C17"),
+ "C18": ("compile-time auto-trait assertions as build precondition + randomized concurrent execution: N in {2,4,16} evaluations of one Arc<RuleSet> on a tokio multi-thread runtime and on raw threads, compared with the sequential baseline",
+         "Exploration: the dynamic half samples real thread interleavings (it does not enumerate them) and compares outcomes and per-evaluation invocation multisets with sequential runs; the static half (Send/Sync of 10 public types, Send of 4 evaluation futures) is decided by the compiler when the check binary is built and a failure there is reported as the violation.",
+         "Weak evidence for 'all interleavings' by design; reval holds no shared mutable state. The static half is not a generated-input check (DESIGN.md §7).",
+         "DESIGN.md §4 C18"),
+ "C19": ("fault-isolating fuzzing by depth: child process per (construct, depth, operation, stack size) on a geometric depth ladder; oracle = exit status (normal vs killed by signal); thresholds relative to recorded known findings",
+         "Exploration: 13 recursive constructs x 8 operations x 2 stack sizes, each ladder climbed to 2^15 (quick) / 2^17 (thorough) or the first crash. Crashes deeper than the recorded safe depth of a listed known finding are reported as KNOWN-FINDING; any other crash is a violation.",
+         "Thresholds depend on the harness's release profile and the two pinned stack sizes.",
+         "DESIGN.md §4 C19"),
  "C10": ("property-based testing with unique-leaf inputs: generated nested inputs x access paths (present, absent at each level, off-by-one, wrong step kind) and near-miss symbol/function tables; oracle = direct walk of the input",
          "Exploration: seeded random nested inputs with unique leaf tokens and near-miss keys x generated access paths, through constructors and through text, compared with a direct walk written in the check itself; symbol/function lookups over near-miss name pools must resolve exactly or fail naming the name.",
          "Trusts the direct walk in harness/src/props/c10.rs.",
@@ -66,7 +98,7 @@ def main():
             "thorough_cmd": f"./check {pid} thorough",
             "evidence_file": f"/verif/evidence/{pid}.json",
             "replay_cmd_template": f"./check {pid} --replay {{path}}",
-            "engine": "rvv",
+            "engine": "rvv_c18" if pid == "C18" else "rvv",
             "level_claimed": {"category": "exploration", "text": text, "design_ref": ref},
             "level_note": note,
             "technique": tech,
